@@ -21,6 +21,8 @@ mod verif_interp {
       let cbv: Option<u8> = $cb;
       let code = match cbv { Some(second) => [$op, second, b2], None => [$op, b1, b2] };
       let o = sm83ref::step(code, r0, rd);
+      #[cfg(verif_realizable)]
+      kani::assume(cpuh::realizable(&o, r0.pc));
       let run = cpuh::run_interp(code, &r0, c0, rd, &o);
       if run.replayable {
         vassert!(run.returned, concat!("C06.executes@", $t));
